@@ -11,14 +11,15 @@
 //!           Reopen, with the node's committed root (`TxHashSet::roots`), the accumulator seen by a fresh
 //!           extension and the real leaf set next to the from-scratch commitment of the model set.
 //!           Production (Mainnet) block weight, so that one block may create hundreds of outputs.
-use crate::{load_roots, obs_value, NBITS};
+use crate::{from_scratch_chunks, hx, load_roots, obs_value, root_of_chunks, NBITS};
 use chrono::Duration;
 use grin_chain::txhashset::{self, BitmapAccumulator, PMMRHandle, TxHashSet};
 use grin_chain::{ChainStore, Error as ChainError, Tip};
 use grin_core::consensus;
 use grin_core::core::hash::{Hash, Hashed};
 use grin_core::core::pmmr;
-use grin_core::core::{Block, BlockHeader, Input, Inputs, Output, OutputFeatures, TransactionBody, TxKernel};
+use grin_core::core::{Block, BlockHeader, HeaderVersion, Input, Inputs, Output, OutputFeatures, TransactionBody, TxKernel};
+use grin_core::ser::PMMRIndexHashable;
 use grin_core::libtx::{reward, ProofBuilder};
 use grin_core::pow::{Difficulty, Proof};
 use grin_core::ser::ProtocolVersion;
@@ -55,6 +56,8 @@ struct DBlk {
 	spent: Vec<u64>,
 	total_diff: u64,
 	state: DState, // model state after this block
+	/// root of the output PMMR after this block (None when the block cannot be applied at all)
+	pmmr_root: Option<Hash>,
 }
 
 struct DWorld {
@@ -79,6 +82,9 @@ struct DWorld {
 	stale_chunk: Option<u64>,
 	/// the next delivery is an invalid block: the extension must fail and leave nothing behind
 	expect_reject: bool,
+	/// the block being delivered is a wrong-bitmap twin: (class, variant, what its header commits to, what it should)
+	twin: Option<(String, String, String, String)>,
+	twin_no: u64,
 }
 
 fn dummy_proof(n: u64) -> RangeProof {
@@ -233,7 +239,9 @@ impl DWorld {
 		let new_size = pst.size + body.outputs.len() as u64;
 		let mut header = BlockHeader::default();
 		header.height = prev.height + 1;
-		header.version = consensus::header_version(header.height);
+		// nothing at this level compares the version with the height: version 3 is the first whose output_root
+		// folds the bitmap root (OutputRoots::root)
+		header.version = HeaderVersion(consensus::header_version(header.height).0.max(3));
 		header.prev_hash = prev.hash();
 		header.timestamp = prev.timestamp + Duration::seconds(60);
 		header.output_mmr_size = mmr_size(new_size);
@@ -262,8 +270,155 @@ impl DWorld {
 			spent: spends.to_vec(),
 			total_diff: self.blocks[parent].total_diff + diff,
 			state: st,
+			pmmr_root: None,
 		});
+		// the header commits to: the node's output / range proof / kernel MMR roots after the block (read-only
+		// extension, as Chain::set_txhashset_roots) and the FROM-SCRATCH bitmap root of the model state
+		if let Ok((pmmr_root, rproof_root, kernel_root)) = self.roots_after(id) {
+			let fs = {
+				let st = &self.blocks[id].state;
+				root_of_chunks(&self.roots, &from_scratch_chunks(&st.uns, st.size))
+			};
+			let h = &mut self.blocks[id].block.header;
+			h.output_root = (pmmr_root, fs).hash_with_index(h.output_mmr_size);
+			h.range_proof_root = rproof_root;
+			h.kernel_root = kernel_root;
+			self.blocks[id].pmmr_root = Some(pmmr_root);
+		}
 		id
+	}
+
+	/// Fork point of block `id` against the current head, the rewind depth, the blocks to apply (id last).
+	fn route(&self, id: usize) -> (usize, usize, Vec<usize>) {
+		let old = self.path_to_root(self.head);
+		let new = self.path_to_root(id);
+		let anc = *new.iter().find(|x| old.contains(x)).unwrap();
+		let depth = old.iter().position(|x| *x == anc).unwrap();
+		let mut fwd: Vec<usize> = new.iter().cloned().take_while(|x| *x != anc).collect();
+		fwd.reverse();
+		(anc, depth, fwd)
+	}
+
+	/// Output, range proof and kernel MMR roots of the state after block `id` (read-only extension).
+	fn roots_after(&mut self, id: usize) -> Result<(Hash, Hash, Hash), String> {
+		let (anc, _, fwd) = self.route(id);
+		let anc_header = self.blocks[anc].block.header.clone();
+		let fork_hashes: Vec<Hash> = fwd.iter().take(fwd.len() - 1).map(|x| self.blocks[*x].block.hash()).collect();
+		let b = self.blocks[id].block.clone();
+		let hp = &mut self.hp;
+		let ts = self.ts.as_mut().unwrap();
+		let r = catch_unwind(AssertUnwindSafe(|| {
+			txhashset::extending_readonly(hp, ts, |ext, batch| {
+				ext.extension.rewind(&anc_header, batch)?;
+				for h in &fork_hashes {
+					let fb = batch.get_block(h)?;
+					ext.extension.apply_block(&fb, ext.header_extension, batch)?;
+				}
+				ext.extension.apply_block(&b, ext.header_extension, batch)?;
+				let r = ext.extension.roots()?;
+				Ok((r.output_roots.pmmr_root, r.rproof_root, r.kernel_root))
+			})
+		}));
+		match r {
+			Ok(Ok(x)) => Ok(x),
+			Ok(Err(e)) => Err(format!("{:?}", e)),
+			Err(_) => Err("panic".to_string()),
+		}
+	}
+
+	/// Twins of the honest block `id` (same parent, body, work, own nonces) whose output_root folds the right
+	/// output PMMR root with another bitmap root: refused as next block, as winner of a reorganisation and as
+	/// block on a losing fork alike (validate_roots inside the unit of work, before the work comparison).
+	fn wrong_twins(&mut self, id: usize, n: usize) -> bool {
+		let pmmr_root = match self.blocks[id].pmmr_root {
+			Some(r) => r,
+			None => return true,
+		};
+		let parent = self.blocks[id].parent;
+		let st = self.blocks[id].state.clone();
+		let pst = self.blocks[parent].state.clone();
+		let wins = self.blocks[id].total_diff > self.blocks[self.head].total_diff;
+		let class = if !wins {
+			"losing_fork"
+		} else if parent == self.head {
+			"next_block"
+		} else {
+			"reorg_winning"
+		};
+		let spent = self.blocks[id].spent.clone();
+		let mut variants: Vec<(&str, DState)> = vec![];
+		if let Some(i) = spent.first() {
+			let mut s = st.clone();
+			s.uns.insert(*i);
+			variants.push(("spent_still_set", s));
+		}
+		{
+			let v: Vec<u64> = st.uns.iter().cloned().collect();
+			let mut s = st.clone();
+			s.uns.remove(&v[self.rng.gen_range(0, v.len())]);
+			variants.push(("unspent_cleared", s));
+		}
+		variants.push(("stale_parent", pst.clone()));
+		if !spent.is_empty() {
+			let mut s = st.clone();
+			for i in &spent {
+				s.uns.insert(*i);
+			}
+			variants.push(("sibling_state", s));
+		}
+		{
+			let mut s = st.clone();
+			s.uns.remove(&(st.size - 1));
+			variants.push(("last_leaf_cleared", s));
+		}
+		let first = self.rng.gen_range(0, variants.len());
+		for k in 0..n.min(variants.len()) {
+			let (name, ws) = variants[(first + k * (1 + variants.len() / 2)) % variants.len()].clone();
+			let mut chunks = from_scratch_chunks(&ws.uns, ws.size);
+			if self.rng.gen_range(0, 100) < 15 {
+				chunks.push(BTreeSet::new()); // ... and one more all-zero chunk
+			}
+			let wrong = root_of_chunks(&self.roots, &chunks);
+			let mut blk = self.blocks[id].block.clone();
+			self.twin_no += 1;
+			let ps = global::proofsize() as u64;
+			blk.header.pow.proof = Proof::new((0..ps).map(|j| (1 << 24) + self.twin_no * 64 + j).collect());
+			let honest = blk.header.output_root;
+			blk.header.output_root = (pmmr_root, wrong).hash_with_index(blk.header.output_mmr_size);
+			if blk.header.output_root == honest {
+				continue;
+			}
+			let tid = self.blocks.len();
+			self.twin = Some((class.to_string(), name.to_string(), hx(&blk.header.output_root), hx(&honest)));
+			self.blocks.push(DBlk {
+				block: blk,
+				parent,
+				height: self.blocks[id].height,
+				spent: spent.clone(),
+				total_diff: self.blocks[id].total_diff,
+				state: st.clone(),
+				pmmr_root: Some(pmmr_root),
+			});
+			self.expect_reject = true;
+			self.deliver_inner(tid, "wrong_bitmap_root");
+			self.expect_reject = false;
+			self.twin = None;
+			if self.failed {
+				return false;
+			}
+			self.bump(&format!("wrong_root_{}", class));
+		}
+		true
+	}
+
+	fn deliver(&mut self, id: usize, what: &str) {
+		if !self.expect_reject {
+			let always = what.starts_with("shape_reorg") || what.starts_with("losing_v") || what == "after_losing_fork";
+			if (always || self.rng.gen_range(0, 100) < 15) && !self.wrong_twins(id, 1) {
+				return;
+			}
+		}
+		self.deliver_inner(id, what)
 	}
 
 	/// Leaves below `asize` spent by the blocks path[0..depth] (head first), and whether the rewind has the
@@ -299,7 +454,7 @@ impl DWorld {
 	/// The unit of work of pipe::process_block for block `id` (already built), without Block::validate:
 	/// header saved, extension { rewind to the fork point, apply the fork blocks from the store, apply the
 	/// block, sizes validated, rollback when it has no more work than the head }, block saved, head moved.
-	fn deliver(&mut self, id: usize, what: &str) {
+	fn deliver_inner(&mut self, id: usize, what: &str) {
 		let b = self.blocks[id].block.clone();
 		let wins = self.blocks[id].total_diff > self.blocks[self.head].total_diff;
 		let old = self.path_to_root(self.head);
@@ -328,10 +483,12 @@ impl DWorld {
 					for h in &fork_hashes {
 						let fb = batch.get_block(h)?;
 						ext.extension.apply_block(&fb, ext.header_extension, batch)?;
+						ext.extension.validate_roots(&fb.header)?;
 						ext.extension.validate_sizes(&fb.header)?;
 						inner.push((ext.extension.roots()?.output_roots.bitmap_root, ext.extension.bitmap_accumulator()));
 					}
 					ext.extension.apply_block(&b, ext.header_extension, batch)?;
+					ext.extension.validate_roots(&b.header)?;
 					ext.extension.validate_sizes(&b.header)?;
 					inner.push((ext.extension.roots()?.output_roots.bitmap_root, ext.extension.bitmap_accumulator()));
 					if !more_work {
@@ -362,11 +519,24 @@ impl DWorld {
 		} else {
 			"ok_fork"
 		};
-		if res == "reject" && exp == "reject" {
+		if exp == "reject" && (res == "reject" || self.twin.is_some()) {
+			let mut ev = json!({"k":"Stay","what":what,"res":res,"exp":exp,"depth":depth,"detail":detail.chars().take(60).collect::<String>()});
+			if let Some((class, variant, hdr, hdr_fs)) = self.twin.clone() {
+				ev["what"] = json!(format!("wrong_bitmap_root:{}", variant));
+				ev["class"] = json!(class);
+				ev["hdr_root"] = json!(hdr);
+				ev["hdr_root_fs"] = json!(hdr_fs);
+			}
+			if res != "reject" {
+				// a header committing to another bitmap was not refused: the recording ends with this event
+				self.failed = true;
+				self.put(ev, None);
+				return;
+			}
 			self.bump("refused_blocks");
 			let hst = self.blocks[self.head].state.clone();
 			let o = self.observe(&hst);
-			self.put(json!({"k":"Stay","what":what,"res":res,"exp":exp,"depth":depth,"detail":detail.chars().take(60).collect::<String>()}), Some(o));
+			self.put(ev, Some(o));
 			return;
 		}
 		if res != exp {
@@ -813,7 +983,7 @@ pub fn direct(args: &Args) -> i32 {
 		store,
 		hp,
 		ts: Some(ts),
-		blocks: vec![DBlk { block: genesis.clone(), parent: 0, height: 0, spent: vec![], total_diff: 0, state: st0.clone() }],
+		blocks: vec![DBlk { block: genesis.clone(), parent: 0, height: 0, spent: vec![], total_diff: 0, state: st0.clone(), pmmr_root: None }],
 		head: 0,
 		kernel: g_kern,
 		leaf_of: HashMap::new(),
@@ -828,6 +998,8 @@ pub fn direct(args: &Args) -> i32 {
 		spend_chunks: BTreeSet::new(),
 		stale_chunk: None,
 		expect_reject: false,
+		twin: None,
+		twin_no: 0,
 	};
 	w.leaf_of.insert(g_out.commitment(), 0);
 	w.commit_of.insert((0, 0), (OutputFeatures::Coinbase, g_out.commitment()));
